@@ -1,6 +1,5 @@
 //! C08 — LZMA size and end-of-stream rules hold for every option combination.
 
-use super::common::*;
 use crate::gen::program::*;
 use crate::refmodel::dec::{decode_lzma, DecErr, EndKind};
 use crate::refmodel::enc::{encode_lzma, lzma_header, lzma_header5, EncodedLzma};
@@ -323,6 +322,10 @@ impl Property for C08 {
                     }
                 }
                 (Err(_), sut::Verdict::Err(_)) => {}
+                (Ok((_, _, EndKind::LenientEof)), sut::Verdict::Err(_)) => {
+                    // the property does not demand acceptance without a marker
+                    st.class("lenient eof rejected by lzma-rs (allowed)");
+                }
                 (Ok(_), _) => {
                     c.focus = Some(cell);
                     return Judgement::violation("reject-valid", describe("rules say success, lzma-rs fails"));
@@ -351,7 +354,8 @@ impl Property for C08 {
                     continue;
                 }
                 let ok_expected = reference.is_ok();
-                if s.verdict.is_ok() != ok_expected && !s.verdict.is_panic() {
+                let lenient = matches!(reference, Ok((_, _, EndKind::LenientEof)));
+                if s.verdict.is_ok() != ok_expected && !s.verdict.is_panic() && !(lenient && s.verdict.is_err()) {
                     c.focus = Some(cell);
                     return Judgement::violation(
                         if ok_expected { "stream:reject-valid" } else { "stream:accept-invalid" },
